@@ -10,3 +10,4 @@ import ForsysModel.Props.C01
 import ForsysModel.Props.C01matrix
 import ForsysModel.Props.C01tissue
 import ForsysModel.Props.C05bound
+import ForsysModel.Props.C01more
